@@ -265,74 +265,122 @@ func notOp(op token.Token) token.Token {
 	return op
 }
 
-// inductionStep: ph (in header h) is initial on entry edges and ph (+|-) positive constant on every back edge,
-// possibly through further phis inside the loop whose edges are all such steps. Returns +c / -c direction (sign, with
-// magnitude 1 for unit steps, 2 otherwise).
+// inductionStep: ph (in header h) is initial on entry edges and, on every back edge, ph moved in one direction by at
+// least one positive constant step — possibly through further phis inside the loop and through additions of a value
+// that cannot be negative (the width of a decoded rune less one). Returns the direction (+1 / -1 for unit steps,
+// +2 / -2 otherwise).
 func inductionStep(ph *ssa.Phi, h *ssa.BasicBlock, body map[*ssa.BasicBlock]bool) (int, bool) {
 	dir := 0
-	var step func(v ssa.Value, d int) bool
-	step = func(v ssa.Value, d int) bool {
-		if d > 4 {
-			return false
+	unit := true
+	var step func(v ssa.Value, d int) (ok, strict bool)
+	step = func(v ssa.Value, d int) (bool, bool) {
+		if d > 6 {
+			return false, false
 		}
 		v = stripChange(v)
+		if v == ssa.Value(ph) {
+			return true, false
+		}
 		switch x := v.(type) {
 		case *ssa.BinOp:
 			if x.Op != token.ADD && x.Op != token.SUB {
-				return false
+				return false, false
 			}
-			k, ok := constNum(x.Y)
+			k, isK := constNum(x.Y)
 			base := x.X
-			if !ok && x.Op == token.ADD {
-				k, ok = constNum(x.X)
-				base = x.Y
+			if !isK && x.Op == token.ADD {
+				if k, isK = constNum(x.X); isK {
+					base = x.Y
+				}
 			}
-			if !ok || k == 0 {
-				return false
+			if !isK {
+				// i + (w - 1), w the width of a decoded rune of a non-empty string
+				if x.Op == token.ADD && runeWidthLessOne(x.Y) {
+					ok, strict := step(x.X, d+1)
+					if ok && dir < 0 {
+						return false, false
+					}
+					unit = false
+					return ok, strict
+				}
+				return false, false
+			}
+			if k == 0 {
+				return step(base, d+1)
 			}
 			if x.Op == token.SUB {
 				k = -k
 			}
-			if stripChange(base) != ssa.Value(ph) {
-				return false
-			}
-			s := 1
+			sgn := 1
 			if k < 0 {
-				s = -1
+				sgn = -1
 			}
-			m := s
+			if dir != 0 && dir != sgn {
+				return false, false
+			}
+			dir = sgn
 			if k != 1 && k != -1 {
-				m = 2 * s
+				unit = false
 			}
-			if dir != 0 && (dir > 0) != (m > 0) {
-				return false
-			}
-			if dir == 0 || (m != dir && (m == 2 || m == -2)) {
-				dir = m
-			}
-			return true
+			ok, _ := step(base, d+1)
+			return ok, ok
 		case *ssa.Phi:
-			if !body[x.Block()] || x == ph {
-				return false
+			if !body[x.Block()] {
+				return false, false
 			}
+			all := true
 			for _, e := range x.Edges {
-				if !step(e, d+1) {
-					return false
+				ok, strict := step(e, d+1)
+				if !ok {
+					return false, false
+				}
+				if !strict {
+					all = false
 				}
 			}
-			return true
+			return true, all
 		}
-		return false
+		return false, false
 	}
 	for i, e := range ph.Edges {
 		if !body[h.Preds[i]] {
 			continue
 		}
-		if !step(e, 0) {
+		if ok, strict := step(e, 0); !ok || !strict {
 			return 0, false
 		}
 	}
-	return dir, dir != 0
+	if dir == 0 {
+		return 0, false
+	}
+	if !unit {
+		return 2 * dir, true
+	}
+	return dir, true
+}
+
+// runeWidthLessOne: v is w - 1 (or w + -1) where w is the width result of utf8.DecodeRune(InString) / DecodeLastRune*:
+// at least 1 for a non-empty argument, so v >= 0. (For an empty argument the width is 0; the loops in question slice
+// from an index below the length.)
+func runeWidthLessOne(v ssa.Value) bool {
+	bo, ok := stripChange(v).(*ssa.BinOp)
+	if !ok {
+		return false
+	}
+	k, isK := constNum(bo.Y)
+	if !isK || !(bo.Op == token.SUB && k == 1 || bo.Op == token.ADD && k == -1) {
+		return false
+	}
+	ex, ok := stripChange(bo.X).(*ssa.Extract)
+	if !ok || ex.Index != 1 {
+		return false
+	}
+	call, ok := ex.Tuple.(*ssa.Call)
+	if !ok {
+		return false
+	}
+	nm := calleeName(call)
+	return strings.HasPrefix(nm, "unicode/utf8.Decode")
 }
 
 // childStepOf: v is *(&x.f) for a non-link field f of the cursor (one or more steps).
